@@ -65,6 +65,15 @@ Fixpoint be_bytes (n : nat) (v : N) (acc : bytes) : bytes :=
 Definition DOMAIN : bytes :=
   be_bytes (N.to_nat Consts.C01_STATIC_KEY_DOMAIN_LEN) Consts.C01_STATIC_KEY_DOMAIN_BE [].
 
+(* P2P_SIGNING_PREFIX = "libp2p-tls-handshake:" (crypto/tls/certificate.rs) and the prefix of the
+   WebRTC Noise prologue "libp2p-webrtc-noise:" (transport/webrtc/opening.rs) *)
+Definition TLS_PREFIX : bytes :=
+  be_bytes (N.to_nat Consts.C01_TLS_SIGNING_PREFIX_LEN) Consts.C01_TLS_SIGNING_PREFIX_BE [].
+Definition WEBRTC_PREFIX : bytes :=
+  be_bytes (N.to_nat Consts.C01_WEBRTC_PROLOGUE_PREFIX_LEN) Consts.C01_WEBRTC_PROLOGUE_PREFIX_BE [].
+(* noise_prologue(local, remote) = PREFIX ++ remote ++ local *)
+Definition webrtc_prologue (local remote : bytes) : bytes := WEBRTC_PREFIX ++ remote ++ local.
+
 (* ------------------------------------------------------------------ prost 0.13.5 *)
 
 (* prost::RECURSION_LIMIT (lib.rs); a dependency's constant, written here *)
@@ -313,7 +322,10 @@ Inductive err :=
 | EKeyInvalid     (* ParseError(InvalidPublicKey) *)
 | ESigMissing     (* BadSignature *)
 | ESigBad         (* BadSignature *)
-| EMismatch.      (* PeerIdMismatch *)
+| EMismatch       (* PeerIdMismatch; TLS: "Wrong peer ID in p2p extension" *)
+| ETlsNoExt       (* TLS: webpki BadDer (no libp2p extension, or more than one) *)
+| ETlsExtValue    (* TLS: webpki ExtensionValueInvalid (SignedKey does not decode) *)
+| ETlsIssuer.     (* TLS: webpki UnknownIssuer (key blob refused, or signature does not verify) *)
 
 Inductive result := Accept (p : pid) | Reject (e : err).
 Inductive keyres := KeyOk (k : bytes) | KeyErr (e : err).
@@ -366,6 +378,34 @@ Section Decision.
   Definition accept (pb rs : bytes) (dialed : option pid) : result :=
     check_dialed dialed (verify_identity pb rs).
 
+  (* -------------------------------------------------------------- the TLS caller (QUIC) *)
+  (* crypto/tls/certificate.rs::parse after the X.509 layer (x509-parser, validity period,
+     self-signature by ring — all trusted): what the libp2p Public Key Extension is found to be,
+     then the same key admission and id derivation as above, the signature being over
+     P2P_SIGNING_PREFIX ++ the certificate's SubjectPublicKeyInfo; crypto/tls/verifier.rs compares
+     the id with the dialed peer (verify_server_cert; verify_client_cert has no expectation) *)
+  Inductive tls_ext :=
+  | TlsNone                           (* no extension with the libp2p OID *)
+  | TlsDuplicate                      (* more than one *)
+  | TlsMalformed                      (* content is not SignedKey ::= SEQUENCE { OCTET STRING x2 } *)
+  | TlsExt (key sig : bytes).
+
+  Definition tls_verify (x : tls_ext) (spki : bytes) : result :=
+    match x with
+    | TlsNone | TlsDuplicate => Reject ETlsNoExt
+    | TlsMalformed => Reject ETlsExtValue
+    | TlsExt kb sg =>
+        match decode_pubkey kb with
+        | KeyErr _ => Reject ETlsIssuer
+        | KeyOk k =>
+            if verify k (TLS_PREFIX ++ spki) sg then Accept (peer_id_of_key k)
+            else Reject ETlsIssuer
+        end
+    end.
+
+  Definition tls_accept (x : tls_ext) (spki : bytes) (expected : option pid) : result :=
+    check_dialed expected (tls_verify x spki).
+
   (* -------------------------------------------------------------- transcript layer *)
 
   Inductive ct := Ct (k h pt : bytes) | Junk (b : bytes).
@@ -382,7 +422,9 @@ Section Decision.
     | Junk _ => None
     end.
 
-  Record party := mkParty { eph : N; sta : N; pay : bytes; dialed_of : option pid }.
+  (* `pro` is the Noise prologue: empty for TCP and WebSocket, "libp2p-webrtc-noise:" followed by
+     the two DTLS fingerprints for WebRTC (NoiseContext::with_prologue) *)
+  Record party := mkParty { eph : N; sta : N; pay : bytes; dialed_of : option pid; pro : bytes }.
 
   Record msg1 := mkM1 { m1_e : bytes; m1_pl : bytes }.
   Record msg2 := mkM2 { m2_e : bytes; m2_s : ct; m2_p : ct }.
@@ -411,7 +453,7 @@ Section Decision.
 
   (* listener after reading message 1: transcript, DH outputs, and its message 2 *)
   Definition l_tr1 (L : party) (d1 : msg1) : list item :=
-    [IB (m1_e d1); IB (m1_pl d1); IB (pubk (eph L))].
+    [IB (pro L); IB (m1_e d1); IB (m1_pl d1); IB (pubk (eph L))].
   Definition l_ks1 (L : party) (d1 : msg1) : list bytes := [dh (eph L) (m1_e d1)].
   Definition l_cs2 (L : party) (d1 : msg1) : ct :=
     Ct (KDF (l_ks1 L d1)) (H (l_tr1 L d1)) (pubk (sta L)).
@@ -426,7 +468,7 @@ Section Decision.
 
   (* dialer reading message 2 *)
   Definition d_tr1 (D : party) (d2 : msg2) : list item :=
-    [IB (pubk (eph D)); IB []; IB (m2_e d2)].
+    [IB (pro D); IB (pubk (eph D)); IB []; IB (m2_e d2)].
   Definition d_ks1 (D : party) (d2 : msg2) : list bytes := [dh (eph D) (m2_e d2)].
   Definition d_tr2 (D : party) (d2 : msg2) : list item := d_tr1 D d2 ++ [IC (m2_s d2)].
   Definition d_ks2 (D : party) (d2 : msg2) (s : bytes) : list bytes :=
